@@ -11,13 +11,15 @@ validates what elaborate() did.
      assignment-operator, port-rule, loop, self/duplicate connect, type-mismatch, loop-back and
      no-writer families, plus mutated random statement sets, are printed as real construct()s for
      every statement permutation x side flip and elaborated; ElabTrace requires: defects = {} =>
-     elaborate() returns with the spec's nets; otherwise an exception of the image of SOME defect
-     present (which of several coexisting defects is reported is not specified).
+     elaborate() returns (which nets and writers it builds is C08's subject: C08 runs the legal
+     designs of this grid too); otherwise an exception of the image of SOME defect present
+     (which of several coexisting defects is reported is not specified).
   3. spec -> code: the same verdicts are recomputed from the result TLC printed and must agree.
-  4. canaries: accepted-illegal, rejected-legal, wrong class, swapped writer.
+  4. canaries: accepted-illegal, rejected-legal, wrong class.
 
-NOTE: shapes the statement is silent about (the same pair connected twice; one net with two
-bit-overlapping members) are only recorded.  `//=` cannot syntactically target a struct field
+NOTE: two overlapping members of one signal driven by one net are two drivers of the shared bits
+(MultiWriter).  Shapes the statement is silent about (the same pair connected twice; a net with a
+member that overlaps the net's own writer) are only recorded.  `//=` cannot syntactically target a struct field
 (AttributeError inside pymtl3's setattr hook), so lambda drivers are only generated for signals and
 slices.
 """
@@ -49,7 +51,7 @@ def grid(tier):
         core = [core[i] for i in sorted(R.sample(range(len(core)), 420))]
         cells = core + [rest[i] for i in sorted(R.sample(range(len(rest)), 60))]
     rnd = g.random_designs(60 if quick else 1500, R, mut_rate=0.85)
-    ds = g.fixed_shapes() + cells + extras + rnd
+    ds = g.fixed_shapes() + g.overlap_net_shapes() + cells + extras + rnd
     seen, out = set(), []
     for d in ds:
         k = d.key()
@@ -75,11 +77,6 @@ def _canaries(res, info):
         t = copy.deepcopy(traces[i])
         t["ev"][0]["out"], t["ev"][0]["nets"] = "MultiWriterError", []
         can.append((t, i, "rejected-legal"))
-    for i in [j for j in legal if exp[j]["nets"]][:8]:
-        t = copy.deepcopy(traces[i])
-        net = t["ev"][0]["nets"][0]
-        net[0] = next(m for m in net[1] if m != net[0])
-        can.append((t, i, "swapped-writer"))
     for n, i in enumerate(bad[:30]):
         t = copy.deepcopy(traces[i])
         if n % 2 == 0:
@@ -91,7 +88,7 @@ def _canaries(res, info):
             t["ev"][0]["out"] = wrong
             can.append((t, i, "wrong-class"))
     for (t, i, kind) in can:
-        if g.judge(D[i], exp[i], t["ev"][0]["out"], t["ev"][0]["nets"]) is None:
+        if g.judge(D[i], exp[i], t["ev"][0]["out"], t["ev"][0]["nets"], "C09") is None:
             raise MachineryError("canary %s not flagged by the comparison with Elab's result" % kind)
     _, cv = tlc.validate_traces("ElabTrace", {"traces": [c[0] for c in can]})
     acc = [(can[i][2], D[can[i][1]].key()) for i, v in enumerate(cv) if v[0] == "ok"]
@@ -105,7 +102,7 @@ def run(res, tier):
     designs, ngrid, nextra = grid(tier)
     cap = 48 if quick else 240
     with scratch():
-        info = g.check_designs(res, designs, cap=cap, nsim=0, ncyc=0,
+        info = g.check_designs(res, designs, prop="C09", cap=cap, nsim=0, ncyc=0,
                                hashseeds=[0, 1, 2, 3] if quick else list(range(16)), tag="c09",
                                cross_seed=10 if quick else 150)
     for a in g.ELAB_ACTIONS:
@@ -143,5 +140,7 @@ def run(res, tier):
     res.assume("which of several coexisting defects is reported is not specified: any exception class in the image "
                "of a defect present is accepted")
     res.assume("a signal that is read but never driven outside any net is not a defect of the statement")
-    res.assume("connecting the same pair twice / a net with two bit-overlapping members: outcome only recorded")
+    res.assume("two overlapping members of one signal driven by one net: two drivers of the shared bits (MultiWriter)")
+    res.assume("connecting the same pair twice / a net with a member overlapping the net's own writer: outcome only "
+               "recorded")
     res.assume("designs whose permutations x flips exceed the cap (%d) are sampled" % cap)
